@@ -177,6 +177,22 @@ def run(model, rel, fname, build, symbolic_zero=False, assume=None):
         I = Interp(model, assume_, hooks)
         env = Env(I, hooks)
         args, kwargs, watch = build(env)
+        # vectors handed in that are not part of the state the caller
+        # watches: they are inputs and must come back unchanged
+        watched = {id(v) for v in watch.values()}
+        inputs = {}
+
+        def visit(v, label):
+            if isinstance(v, Vec):
+                if id(v) not in watched:
+                    inputs[label] = (v, vs.freeze(v.val))
+            elif isinstance(v, (list, tuple)):
+                for i, z in enumerate(v):
+                    visit(z, '%s[%d]' % (label, i))
+        for i, v in enumerate(args):
+            visit(v, 'argument %d' % i)
+        for kk, v in kwargs.items():
+            visit(v, kk)
         fn = model.ctx.func(rel, fname)
         if 'callback' in [a.arg for a in fn.args.args] or fn.args.kwarg \
                 or 'callback' in [a.arg for a in fn.args.kwonlyargs]:
@@ -185,7 +201,10 @@ def run(model, rel, fname, build, symbolic_zero=False, assume=None):
         I.call_func(Func(fn, I.env_of(rel), None), args, kwargs)
         out = {k: vs.freeze(v.val) for k, v in watch.items()}
         shows = _LazyShow({k: dict(v.val) for k, v in watch.items()})
+        changed = sorted(lbl for lbl, (v, was) in inputs.items()
+                         if vs.freeze(v.val) != was)
         return {'final': out, 'show': shows, 'cb': list(hooks.callback_log),
+                'changed_inputs': changed, 'n_inputs': len(inputs),
                 'locals': I.last_scope.vars if hasattr(I, 'last_scope')
                 else {}}
     leaves = explore(once, limit=40)
@@ -302,6 +321,15 @@ def _pairs(rep, model):
                               rel, fn.lineno)
             else:
                 rep.holds('R1', tag, 'iterates and state equal')
+            for which, r in ((opt, a), (simple, b)):
+                if r['changed_inputs']:
+                    rep.violation(
+                        'R2i', which, '%s: %s overwrites its input %s'
+                        % (tag, which, ', '.join(r['changed_inputs'])), rel,
+                        fn.lineno)
+                elif r['n_inputs']:
+                    rep.holds('R2i', '%s:%s' % (tag, which),
+                              '%d input vectors unchanged' % r['n_inputs'])
     rep.count('programs', 2 * len(pairs))
 
 
@@ -388,38 +416,21 @@ def _resume(rep, model):
                 mk, 'proj', False) else '', getattr(mk, 'tag', ''), n, m)
             try:
                 # n + m at once; every vector handed in besides the iterate
-                # is watched: the solver must leave it as it was (R2i)
-                before = {}
-
+                # must come back unchanged (R2i, watched by `run`)
                 def b_all(e):
                     x = e.vec('x', e.X)
                     a, k = mk(e, x, n + m)
-                    watch = {'x': x}
-
-                    def visit(v, label):
-                        if isinstance(v, Vec) and v is not x:
-                            watch['in:' + label] = v
-                            before['in:' + label] = vs.freeze(v.val)
-                        elif isinstance(v, (list, tuple)):
-                            for i, z in enumerate(v):
-                                visit(z, '%s[%d]' % (label, i))
-                    for i, v in enumerate(a):
-                        visit(v, 'argument %d' % i)
-                    for kk, v in k.items():
-                        visit(v, kk)
-                    return a, k, watch
+                    return a, k, {'x': x}
                 whole = run(model, rel, name, b_all)
-                changed = sorted(lbl[3:] for lbl, val in before.items()
-                                 if whole['final'].get(lbl) != val)
-                if changed:
+                if whole['changed_inputs']:
                     rep.violation(
                         'R2i', name, '%s: the solver overwrites its input %s '
                         '(a second call with the same objects continues '
-                        'from different data)' % (tag, ', '.join(changed)),
-                        rel, fn.lineno)
-                elif before:
+                        'from different data)' % (tag, ', '.join(
+                            whole['changed_inputs'])), rel, fn.lineno)
+                elif whole['n_inputs']:
                     rep.holds('R2i', tag, '%d input vectors unchanged'
-                              % len(before))
+                              % whole['n_inputs'])
 
                 # n, then m more, from the iterate alone
                 def b_split(e):
